@@ -4,12 +4,15 @@
 #include <asmjit/x86.h>
 #include <asmjit/a64.h>
 #include "vcommon.h"
+#include <memory>
 
 using namespace asmjit;
 
+struct ScriptThrow { Error err; };
 struct Handler : public ErrorHandler {
   int calls = 0;
-  void handle_error(Error, const char*, BaseEmitter*) override { calls++; }
+  bool do_throw = false;
+  void handle_error(Error err, const char*, BaseEmitter*) override { calls++; if (do_throw) throw ScriptThrow{err}; }
 };
 
 struct Snap {
@@ -39,12 +42,21 @@ struct Script {
   std::vector<std::string> names;
   uint64_t ops = 0;
   bool is_a64;
+  bool threw = false;             // the last guarded call left through the throwing handler
 
-  Script(Arch arch, uint64_t seed) : env(arch), r(seed), is_a64(arch == Arch::kAArch64) {
+  // do_throw: the handler throws (every call is guarded); own: the handler is set on the emitter, not on the CodeHolder
+  Script(Arch arch, uint64_t seed, bool do_throw = false, bool own = false) : env(arch), r(seed), is_a64(arch == Arch::kAArch64) {
     code.init(env);
-    code.set_error_handler(&eh);
+    eh.do_throw = do_throw;
+    if (!own) code.set_error_handler(&eh);
     code.attach(&a);
+    if (own) a.set_error_handler(&eh);
     sections.push_back(code.text_section());
+  }
+
+  template<typename F> Error call(F&& f) {
+    threw = false;
+    try { return f(); } catch (ScriptThrow& t) { threw = true; return t.err; }
   }
 
   Snap snap() {
@@ -71,6 +83,10 @@ struct Script {
       if (after.sec != before.sec) fail(std::string(api) + ":failed-call-created-section", what + " but the section count changed");
       if (after.named_hits != before.named_hits) fail(std::string(api) + ":failed-call-changed-names", what + " but named label lookups changed");
       if (eh.calls != 1) fail(std::string(api) + ":handler-calls", what + " and called the error handler " + std::to_string(eh.calls) + " times");
+      if (eh.do_throw) {
+        g_by_api["script.failures-with-throwing-handler"]++;
+        if (eh.calls && !threw) fail(std::string(api) + ":exception-swallowed", what + ": the handler threw but the call returned normally");
+      }
     }
     else {
       if (eh.calls != 0) fail(std::string(api) + ":handler-on-success", std::string(api) + "(" + arg + ") succeeded but called the error handler");
@@ -108,7 +124,7 @@ struct Script {
       bool valid; Label l = some_label(valid);
       bool already = false;
       if (valid) for (size_t i = 0; i < labels.size(); i++) if (labels[i].id() == l.id()) already = bound[i];
-      Error e = a.bind(l);
+      Error e = call([&] { return a.bind(l); });
       snprintf(buf, sizeof buf, "label id %u valid=%d bound=%d", l.id(), int(valid), int(already));
       judge("bind", buf, e, s, !valid || already);
       if (e == Error::kOk) for (size_t i = 0; i < labels.size(); i++) if (labels[i].id() == l.id()) bound[i] = true;
@@ -117,7 +133,7 @@ struct Script {
       static const uint32_t aligns[] = { 0, 1, 2, 4, 8, 16, 32, 64, 3, 5, 24, 100, 128, 256, 65536, 0x80000000u, 0xFFFFFFFFu };
       uint32_t al = aligns[r.below(sizeof aligns / sizeof aligns[0])];
       uint32_t mode = uint32_t(r.below(5));
-      Error e = a.align(AlignMode(mode), al);
+      Error e = call([&] { return a.align(AlignMode(mode), al); });
       bool bad = mode > 2 || (al > 1 && ((al & (al - 1)) != 0 || al > Globals::kMaxAlignment));
       snprintf(buf, sizeof buf, "mode %u, alignment %u", mode, al);
       judge("align", buf, e, s, bad);
@@ -125,7 +141,7 @@ struct Script {
     else if (k < 50) {
       uint8_t data[64]; for (auto& x : data) x = uint8_t(r.next());
       size_t n = r.below(3) == 0 ? 0 : r.below(64);
-      Error e = a.embed(data, n);
+      Error e = call([&] { return a.embed(data, n); });
       snprintf(buf, sizeof buf, "%zu bytes", n);
       judge("embed", buf, e, s, false);
     }
@@ -136,7 +152,7 @@ struct Script {
       size_t count = r.below(4) == 0 ? 0 : 1 + r.below(4);
       static const size_t reps[] = { 0, 1, 2, 3, SIZE_MAX, SIZE_MAX / 2, size_t(1) << 40 };
       size_t rep = reps[r.below(4) == 0 ? r.below(7) : 1 + r.below(3)];
-      Error e = a.embed_data_array(t, data, count, rep);
+      Error e = call([&] { return a.embed_data_array(t, data, count, rep); });
       snprintf(buf, sizeof buf, "type %u count %zu repeat %zu", unsigned(t), count, rep);
       bool bad = rep > 1000 && count > 0;
       judge("embed_data_array", buf, e, s, bad);
@@ -145,7 +161,7 @@ struct Script {
       bool valid; Label l = some_label(valid);
       static const size_t sizes[] = { 0, 1, 2, 4, 8, 3, 5, 16, 100 };
       size_t sz = sizes[r.below(9)];
-      Error e = a.embed_label(l, sz);
+      Error e = call([&] { return a.embed_label(l, sz); });
       snprintf(buf, sizeof buf, "label id %u valid=%d size %zu", l.id(), int(valid), sz);
       judge("embed_label", buf, e, s, !valid || sz == 3 || sz == 5 || sz > 8);
     }
@@ -153,7 +169,7 @@ struct Script {
       bool v1, v2; Label l1 = some_label(v1), l2 = some_label(v2);
       static const size_t sizes[] = { 0, 1, 2, 4, 8, 3, 7, 16 };
       size_t sz = sizes[r.below(8)];
-      Error e = a.embed_label_delta(l1, l2, sz);
+      Error e = call([&] { return a.embed_label_delta(l1, l2, sz); });
       snprintf(buf, sizeof buf, "labels %u,%u valid=%d,%d size %zu", l1.id(), l2.id(), int(v1), int(v2), sz);
       judge("embed_label_delta", buf, e, s, !v1 || !v2 || sz == 3 || sz == 7 || sz > 8);
     }
@@ -179,7 +195,8 @@ struct Script {
       bool must_refuse = !name.empty() && name.size() <= Globals::kMaxLabelNameSize &&
                          ((type == uint32_t(LabelType::kLocal) && !parent_exists) ||
                           (type != uint32_t(LabelType::kLocal) && type <= uint32_t(LabelType::kExternal) && parent != Globals::kInvalidId));
-      Label l = a.new_named_label(name.c_str(), name.size(), LabelType(type), parent);
+      Label l;
+      call([&] { l = a.new_named_label(name.c_str(), name.size(), LabelType(type), parent); return Error::kOk; });
       ops++; g_by_api["new_named_label"]++;
       g_distinct.insert(std::string("new_named_label:") + (l.is_valid() ? "ok" : "refused"));
       if (!l.is_valid()) {
@@ -187,6 +204,10 @@ struct Script {
         if (after.labels != before_count) fail("new_named_label:failed-call-created-label", "new_named_label('" + name.substr(0, 20) + "', type " + std::to_string(type) + ") returned an invalid label but the label count changed");
         if (after.named_hits != s.named_hits) fail("new_named_label:failed-call-changed-names", "refused new_named_label changed name lookups");
         if (eh.calls != 1) fail("new_named_label:handler-calls", "refused new_named_label('" + name.substr(0, 20) + "') called the handler " + std::to_string(eh.calls) + " times");
+        if (eh.do_throw) {
+          g_by_api["script.failures-with-throwing-handler"]++;
+          if (eh.calls && !threw) fail("new_named_label:exception-swallowed", "refused new_named_label('" + name.substr(0, 20) + "'): the handler threw but the call returned normally");
+        }
       }
       else {
         if (must_refuse) fail("new_named_label:invalid-parent-accepted", "new_named_label('" + name.substr(0, 20) + "', type " + std::to_string(type) + ", parent " + std::to_string(parent) + ") with " + std::to_string(before_count) + " labels defined returned label " + std::to_string(l.id()) + " - must be refused");
@@ -217,7 +238,7 @@ struct Script {
     }
     else if (k < 94) {
       Section* sec = sections[r.below(sections.size())];
-      Error e = a.section(sec);
+      Error e = call([&] { return a.section(sec); });
       judge("section", "existing section", e, s, false);
     }
     else {
@@ -252,10 +273,12 @@ template<> void Script<a64::Assembler>::probe(std::string& out) {
 }
 
 template<typename ASM>
-static void run(Arch arch, uint64_t seed, size_t nops) {
+static void run(Arch arch, uint64_t seed, size_t nops, bool do_throw, bool own) {
   std::string used, fresh;
   {
-    Script<ASM> s(arch, seed);
+    Script<ASM> s(arch, seed, do_throw, own);
+    g_by_api[do_throw ? "script.runs-with-throwing-handler" : "script.runs-with-returning-handler"]++;
+    g_by_api[own ? "script.runs-with-handler-on-emitter" : "script.runs-with-handler-on-holder"]++;
     for (size_t i = 0; i < nops; i++) s.step();
     // leave the last section aligned state out of the comparison: switch to a new empty section first
     Section* sec = nullptr;
@@ -594,7 +617,10 @@ struct Scenario {
     eh.calls = 0;
     LSnap b = snap();
     char arg[160];
-    uint64_t pick = rb.below(K::kind == K_ASM ? 11 : 13);
+    // picks 0..10: a label / section that does not exist here; 11, 12: Builder-only lookups; 13..17: VALID labels with an invalid
+    // alignment / size / type / repeat argument (the same refusal rules, on every emitter kind)
+    uint64_t pick = rb.below(18);
+    if (K::kind == K_ASM && (pick == 11 || pick == 12)) pick = 13 + rb.below(5);
     if (last_valid_was_align && rb.below(2) == 0) pick = 0;        // align + bind(invalid)
     if (pick == 0) {
       int kind = pick_bad_kind(true); Label l = bad_label(kind);
@@ -663,6 +689,53 @@ struct Scenario {
         if (e.has_registered_label_node(l)) violation("has_registered_label_node", "true-for-unknown-label", bad_names[kind], emname() + ": has_registered_label_node(" + arg + ") is true", false);
         judge("label_node_of", bad_names[kind], arg, cr, b, false, true, n != nullptr);
       }
+    }
+    else if (pick == 13) {
+      // align: undefined mode, or an alignment that is not a power of two / above Globals::kMaxAlignment. The Assembler refuses at
+      // once; Builder/Compiler record an AlignNode (deferred: the serializing Assembler refuses in finalize, see run_deferred)
+      static const uint32_t bad_al[] = { 3, 5, 24, 100, 128, 65536, 0x80000000u, 0xFFFFFFFFu };
+      static const uint32_t good_al[] = { 1, 2, 4, 8, 16, 32, 64 };
+      bool bad_mode = rb.below(2) == 0;
+      uint32_t mode = bad_mode ? uint32_t(3 + rb.below(3)) + (rb.below(4) == 0 ? 250u : 0u) : uint32_t(rb.below(3));
+      uint32_t al = bad_mode ? good_al[rb.below(7)] : bad_al[rb.below(8)];
+      snprintf(arg, sizeof arg, "AlignMode(%u), alignment %u", mode, al);
+      judge("align", bad_mode ? "undefined-mode" : "bad-alignment", arg, guarded([&] { return e.align(AlignMode(mode), al); }), b, K::kind != K_ASM, true);
+    }
+    else if (pick == 14) {
+      if (labels.empty()) return;
+      Label l = labels[rb.below(labels.size())];
+      static const size_t szs[] = { 3, 5, 6, 7, 16, 100, size_t(1) << 32, SIZE_MAX };
+      size_t sz = szs[rb.below(8)];
+      snprintf(arg, sizeof arg, "valid Label id %u, size %zu", l.id(), sz);
+      judge("embed_label", "bad-size", arg, guarded([&] { return e.embed_label(l, sz); }), b, false, true);
+    }
+    else if (pick == 15) {
+      if (labels.empty()) return;
+      Label l1 = labels[rb.below(labels.size())], l2 = labels[rb.below(labels.size())];
+      static const size_t szs[] = { 3, 5, 7, 16, 100, size_t(1) << 32, SIZE_MAX };
+      size_t sz = szs[rb.below(7)];
+      snprintf(arg, sizeof arg, "valid Label ids %u, %u, size %zu", l1.id(), l2.id(), sz);
+      judge("embed_label_delta", "bad-size", arg, guarded([&] { return e.embed_label_delta(l1, l2, sz); }), b, false, true);
+    }
+    else if (pick == 16) {
+      // a TypeId that names no data type: refused at once by every emitter (the node would need its size)
+      static const uint32_t tys[] = { 0, 1, 31, 200, 254, 255 };
+      uint32_t t = tys[rb.below(6)];
+      uint64_t data[4]; for (auto& x : data) x = rb.next();
+      size_t count = 1 + rb.below(4), rep = 1 + rb.below(3);
+      snprintf(arg, sizeof arg, "TypeId(%u), %zu items, repeat %zu", t, count, rep);
+      judge("embed_data_array", "undefined-type", arg, guarded([&] { return e.embed_data_array(TypeId(t), data, count, rep); }), b, false, true);
+    }
+    else if (pick == 17) {
+      // a repeat count whose product with the data size overflows / cannot be allocated: the Assembler refuses at once, Builder/Compiler
+      // record the node (deferred)
+      static const size_t reps[] = { SIZE_MAX, SIZE_MAX / 2, size_t(1) << 48, (size_t(1) << 63) + 1 };
+      static const TypeId tys[] = { TypeId::kInt8, TypeId::kUInt16, TypeId::kUInt64, TypeId::kInt32x4 };
+      size_t rep = reps[rb.below(4)]; TypeId t = tys[rb.below(4)];
+      uint64_t data[8]; for (auto& x : data) x = rb.next();
+      size_t count = 1 + rb.below(4);
+      snprintf(arg, sizeof arg, "TypeId(%u), %zu items, repeat %zu", unsigned(t), count, rep);
+      judge("embed_data_array", "repeat-overflow", arg, guarded([&] { return e.embed_data_array(t, data, count, rep); }), b, K::kind != K_ASM, true);
     }
     else {
       if constexpr (K::kind != K_ASM) {
@@ -769,8 +842,23 @@ static void run_deferred(Arch arch, uint64_t seed, unsigned index) {
     const char* badname = bad_names[kind == 4 ? int(B_FFFFFFFE) : kind];
     std::string entry;
     CallResult cr{Error::kOk, false};
-    uint64_t variant = r.below(K::kind == K_COMPILER ? 7 : 5);
+    uint64_t variant = r.below(K::kind == K_COMPILER ? 9 : 7);
+    if (variant >= 5) variant = variant >= 7 ? variant - 2 : variant + 2;       // 5, 6: Compiler only; 7, 8: argument errors every Builder records
     switch (variant) {
+      case 7: {
+        bool bad_mode = r.below(2) == 0;
+        uint32_t mode = bad_mode ? uint32_t(3 + r.below(3)) : uint32_t(r.below(3)), al = bad_mode ? 16u : (r.below(2) ? 24u : 128u);
+        entry = "align"; badname = bad_mode ? "undefined-mode" : "bad-alignment"; id = al;
+        cr = guarded([&] { return e.align(AlignMode(mode), al); });
+        break;
+      }
+      case 8: {
+        static const uint64_t data[2] = { 1, 2 };
+        size_t rep = r.below(2) ? SIZE_MAX / 2 : SIZE_MAX;
+        entry = "embed_data_array"; badname = "repeat-overflow"; id = 0;
+        cr = guarded([&] { return e.embed_data_array(TypeId::kUInt64, data, 2, rep); });
+        break;
+      }
       case 0: entry = "embed_label"; cr = guarded([&] { return e.embed_label(l, 0); }); break;
       case 1: entry = "embed_label_delta.label"; cr = guarded([&] { return e.embed_label_delta(l, good, 4); }); break;
       case 2: entry = "embed_label_delta.base"; cr = guarded([&] { return e.embed_label_delta(good, l, 4); }); break;
@@ -806,7 +894,8 @@ static void run_deferred(Arch arch, uint64_t seed, unsigned index) {
         break;
     }
     g_calls++; g_by_api["lbl.deferred." + entry]++;
-    std::string what = name + ": " + entry + " with Label id " + std::to_string(id) + " (" + std::to_string(code.label_count()) + " labels defined)" + (eh.do_throw ? " [throwing handler]" : "");
+    std::string what = name + ": " + entry + (entry == "align" ? " with an invalid mode / alignment " : entry == "embed_data_array" ? " with an overflowing repeat count, argument " : " with Label id ") +
+                       std::to_string(id) + " (" + std::to_string(code.label_count()) + " labels defined)" + (eh.do_throw ? " [throwing handler]" : "");
     if (cr.err != Error::kOk) {
       // refused at once: the same rules as everywhere
       if (eh.calls != 1 && entry != "jump_annotation.add_label") fail(name + ":" + entry + ":handler-not-called:" + badname, what + " was refused with " + std::to_string(unsigned(cr.err)) + " and the handler was called " + std::to_string(eh.calls) + " times");
@@ -849,6 +938,300 @@ static void run_all(Arch arch, uint64_t seed, size_t scenarios, size_t steps) {
 
 } // namespace lbl
 
+// ======================================================================================================
+// Error-handler ROUTING over attachment histories (every emitter kind of the architecture).
+//
+// "reports an error through its return value and the attached error handler" quantifies over where the handler
+// is attached and over what happened to the emitter before the failing call. One scenario = one emitter object
+// that lives through a random history of
+//   CodeHolder::attach / detach / reset+init / reinit / destruction of the holder (two holders),
+//   set_error_handler / reset_error_handler on either holder and on the emitter itself (two handlers to swap),
+//   set_logger / reset on either holder and on the emitter (state only: the logger block sits next to the
+//   handler block in on_attach/on_detach/on_settings_updated),
+// with failing calls in between: an invalid instruction (x86 strict validation; a64 register id 40), an invalid
+// label / size / type / alignment argument, or - while detached - any call (kNotInitialized).
+// Model: the receiver is the emitter's own handler if one is set, else the handler of the holder it is attached
+// to, else nobody. Oracles per failing call: refused; the receiver is called exactly once with the returned code,
+// no other handler is called (a handler of a holder the emitter has left is a stale pointer); a throwing receiver's
+// exception arrives; error_handler() / has_own_error_handler() agree with the model (also checked after every event).
+//
+// key = route:<emitter>:<problem>:<own|inherited|none>-<never-attached|first-attachment|detached|reattached>
+// ======================================================================================================
+namespace route {
+using lbl::EK; using lbl::K_ASM; using lbl::K_BUILDER; using lbl::K_COMPILER;
+
+struct RThrow { Error err; };
+struct RH : public ErrorHandler {
+  int calls = 0; Error last = Error::kOk; bool do_throw = false; const char* tag = "";
+  void handle_error(Error e, const char*, BaseEmitter*) override { calls++; last = e; if (do_throw) throw RThrow{e}; }
+};
+struct CallResult { Error err; bool threw; };
+template<typename F> static CallResult guarded(F&& f) {
+  try { return CallResult{ f(), false }; } catch (RThrow& t) { return CallResult{ t.err, true }; }
+}
+
+static uint64_t g_probes = 0, g_events = 0, g_scen = 0;
+static bool g_danger = false;
+
+template<typename E>
+struct Scenario {
+  typedef EK<E> K;
+  Environment env;
+  bool is64;
+  RH hh[2], own[2];
+  StringLogger hlog[2], olog;
+  std::unique_ptr<CodeHolder> holder[2];
+  E e;                                      // declared last: destroyed first (detaches itself)
+  Rng r;
+  // model
+  int attached = -1;
+  RH* m_own = nullptr;
+  RH* m_holder[2] = { nullptr, nullptr };
+  unsigned attach_count = 0;
+  const char* how_detached = "";
+  Label good;
+  bool dead = false;
+
+  Scenario(Arch arch, uint64_t seed) : env(arch), is64(arch != Arch::kX86), r(seed) {
+    static const char* const tags[] = { "handler of holder A", "handler of holder B", "emitter's own handler #1", "emitter's own handler #2" };
+    RH* all[4] = { &hh[0], &hh[1], &own[0], &own[1] };
+    for (int i = 0; i < 4; i++) { all[i]->tag = tags[i]; all[i]->do_throw = r.below(3) == 0; }
+    for (int i = 0; i < 2; i++) { holder[i].reset(new CodeHolder()); holder[i]->init(env); }
+  }
+
+  std::string name() const { return std::string(K::name()) + (K::a64 || is64 ? "" : "/32"); }
+  RH* receiver() const { return m_own ? m_own : attached >= 0 ? m_holder[attached] : nullptr; }
+  std::string state() const {
+    std::string s = m_own ? "own" : (attached >= 0 && m_holder[attached]) ? "inherited" : "none";
+    s += attached < 0 ? (attach_count ? "-detached" : "-never-attached") : attach_count == 1 ? "-first-attachment" : "-reattached";
+    return s;
+  }
+  void viol(const char* problem, const std::string& what) {
+    fail("route:" + std::string(K::name()) + ":" + problem + ":" + state(), name() + " [" + state() + (attached < 0 && *how_detached ? std::string(", left its holder by ") + how_detached : std::string()) + "] " + what);
+  }
+  void clear_calls() { hh[0].calls = hh[1].calls = own[0].calls = own[1].calls = 0; }
+
+  void check_getters(const char* after) {
+    RH* want = receiver();
+    if (e.error_handler() != static_cast<ErrorHandler*>(want))
+      viol("error_handler-getter-differs", std::string("after ") + after + ": error_handler() is " + (e.error_handler() ? "another / stale handler" : "null") + ", the model says " + (want ? want->tag : "none"));
+    if (e.has_own_error_handler() != (m_own != nullptr))
+      viol("own-flag-differs", std::string("after ") + after + ": has_own_error_handler() is " + (e.has_own_error_handler() ? "true" : "false"));
+  }
+
+  void prepare() {
+    // strict validation (idempotent), a function for the Compiler, one valid label
+    if constexpr (!K::a64) e.add_diagnostic_options(K::kind == K_ASM ? DiagnosticOptions::kValidateAssembler : DiagnosticOptions::kValidateIntermediate);
+    if constexpr (K::kind == K_COMPILER) e.add_func(FuncSignature::build<void>());
+    good = e.new_label();
+    clear_calls();
+  }
+
+  void event() {
+    g_events++;
+    uint64_t k = r.below(100);
+    const char* what = "";
+    if (attached < 0 && r.below(2)) k = 0;          // do not stay detached for long
+    if (k < 22) {
+      if (attached < 0) {
+        int i = int(r.below(2));
+        Error err = holder[i]->attach(&e);
+        if (err != Error::kOk) { fail("route:" + std::string(K::name()) + ":harness:attach-failed", name() + ": attach failed with " + std::to_string(unsigned(err))); dead = true; return; }
+        attached = i; attach_count++; prepare(); what = "attach"; g_by_api["route.event.attach"]++;
+      }
+      else { holder[attached]->detach(&e); attached = -1; how_detached = "CodeHolder::detach()"; what = "detach"; g_by_api["route.event.detach"]++; }
+    }
+    else if (k < 30) {
+      int i = attached >= 0 && r.below(3) ? attached : int(r.below(2));
+      holder[i]->reset(r.below(2) ? ResetPolicy::kSoft : ResetPolicy::kHard);      // detaches emitters, forgets the holder's handler and logger
+      holder[i]->init(env);
+      m_holder[i] = nullptr;
+      if (attached == i) { attached = -1; how_detached = "CodeHolder::reset()"; }
+      what = "holder reset"; g_by_api["route.event.holder-reset"]++;
+    }
+    else if (k < 36) {
+      int i = attached >= 0 && r.below(3) ? attached : int(r.below(2));
+      holder[i].reset(new CodeHolder()); holder[i]->init(env);
+      m_holder[i] = nullptr;
+      if (attached == i) { attached = -1; how_detached = "destruction of the CodeHolder"; }
+      what = "holder destroyed"; g_by_api["route.event.holder-destroyed"]++;
+    }
+    else if (k < 42) {
+      if (attached < 0) return;
+      holder[attached]->reinit(); prepare();
+      what = "holder reinit"; g_by_api["route.event.holder-reinit"]++;
+    }
+    else if (k < 58) {
+      int i = int(r.below(2)); bool on = r.below(3) != 0;
+      holder[i]->set_error_handler(on ? &hh[i] : nullptr); m_holder[i] = on ? &hh[i] : nullptr;
+      what = on ? "CodeHolder::set_error_handler" : "CodeHolder::reset_error_handler"; g_by_api[on ? "route.event.holder-handler-set" : "route.event.holder-handler-reset"]++;
+    }
+    else if (k < 76) {
+      bool on = r.below(3) != 0; int j = int(r.below(2));
+      if (on) { e.set_error_handler(&own[j]); m_own = &own[j]; } else { e.reset_error_handler(); m_own = nullptr; }
+      what = on ? "BaseEmitter::set_error_handler" : "BaseEmitter::reset_error_handler"; g_by_api[on ? "route.event.own-handler-set" : "route.event.own-handler-reset"]++;
+    }
+    else if (k < 88) {
+      int i = int(r.below(2)); bool on = r.below(2) != 0;
+      holder[i]->set_logger(on ? &hlog[i] : nullptr);
+      what = "CodeHolder::set_logger"; g_by_api["route.event.holder-logger"]++;
+    }
+    else {
+      bool on = r.below(2) != 0;
+      e.set_logger(on ? &olog : nullptr);
+      what = "BaseEmitter::set_logger"; g_by_api["route.event.own-logger"]++;
+    }
+    hlog[0].clear(); hlog[1].clear(); olog.clear();
+    check_getters(what);
+  }
+
+  // one failing call; returns false when no such call exists for this emitter kind / state
+  bool failing_call(int v, std::string& entry, CallResult& cr) {
+    static const uint8_t bytes[8] = { 1, 2, 3, 4, 5, 6, 7, 8 };
+    if (attached < 0) {
+      // anything a detached emitter is asked to do is refused with kNotInitialized
+      switch (v % 6) {
+        case 0: entry = "detached.inst";
+          if constexpr (K::a64) cr = guarded([&] { return e.emit(a64::Inst::kIdAdd, a64::x(0), a64::x(1), a64::x(2)); });
+          else cr = guarded([&] { return e.emit(x86::Inst::kIdMov, x86::eax, x86::ebx); });
+          return true;
+        case 1: entry = "detached.bind"; cr = guarded([&] { return e.bind(Label(0)); }); return true;
+        case 2: entry = "detached.align"; cr = guarded([&] { return e.align(AlignMode::kCode, 16); }); return true;
+        case 3: entry = "detached.embed"; cr = guarded([&] { return e.embed(bytes, 8); }); return true;
+        case 4: entry = "detached.embed_label"; cr = guarded([&] { return e.embed_label(Label(0), 4); }); return true;
+        default:
+          // (a crash here ends the process: the Assembler variant runs only in dedicated jobs, --route-danger 1)
+          if (K::kind == K_ASM && !g_danger) { entry = "detached.embed"; cr = guarded([&] { return e.embed(bytes, 8); }); return true; }
+          entry = "detached.embed_data_array"; cr = guarded([&] { return e.embed_data_array(TypeId::kUInt8, bytes, 8, 1); }); return true;
+      }
+    }
+    switch (v % 6) {
+      case 0:
+        if constexpr (K::a64) {
+          if constexpr (K::kind != K_ASM) return false;       // no validator: recorded, refused in finalize
+          entry = "inst.register-id-40"; cr = guarded([&] { return e.emit(a64::Inst::kIdAdd, a64::x(0), a64::x(1), a64::Gp::make_r64(40)); }); return true;
+        }
+        else { entry = "inst.mov-eax-rbx"; cr = guarded([&] { return e.emit(x86::Inst::kIdMov, x86::eax, x86::rbx); }); return true; }
+      case 1:
+        entry = "bind.unknown-label"; cr = guarded([&] { return e.bind(Label(uint32_t(holder[attached]->label_count() + 5))); }); return true;
+      case 2: entry = "embed_label.size-3"; cr = guarded([&] { return e.embed_label(good, 3); }); return true;
+      case 3: entry = "embed_data_array.type-200"; cr = guarded([&] { return e.embed_data_array(TypeId(200), bytes, 1, 1); }); return true;
+      case 4:
+        if constexpr (K::kind != K_ASM) return false;         // recorded as a node
+        entry = "align.alignment-24"; cr = guarded([&] { return e.align(AlignMode::kCode, 24); }); return true;
+      default: entry = "embed_label_delta.size-7"; cr = guarded([&] { return e.embed_label_delta(good, good, 7); }); return true;
+    }
+  }
+
+  void probe() {
+    clear_calls();
+    std::string entry; CallResult cr{Error::kOk, false};
+    size_t off0 = 0, nodes0 = 0;
+    if constexpr (K::kind == K_ASM) { if (attached >= 0) off0 = e.offset(); }
+    else { for (BaseNode* n = e.first_node(); n; n = n->next()) nodes0++; }
+    if (!failing_call(int(r.below(6)), entry, cr)) return;
+    g_probes++; lbl::g_calls++;
+    g_by_api["route.probe." + state()]++; g_by_api[std::string("route.on.") + K::name()]++; g_by_api["route.entry." + entry]++;
+    g_distinct.insert("route:" + std::string(K::name()) + ":" + state() + ":" + entry + ":err" + std::to_string(unsigned(cr.err)));
+    RH* want = receiver();
+    std::string what = entry + (cr.threw ? " threw error " : " returned error ") + std::to_string(unsigned(cr.err));
+    if (cr.err == Error::kOk && !cr.threw) { viol("invalid-call-accepted", entry + " returned kOk"); clear_calls(); return; }
+    RH* all[4] = { &hh[0], &hh[1], &own[0], &own[1] };
+    for (RH* h : all) {
+      if (h == want) {
+        if (h->calls == 0) viol("handler-not-called", what + " but " + h->tag + " (the one in charge) was not called");
+        else if (h->calls != 1) viol("handler-called-more-than-once", what + " and called " + h->tag + " " + std::to_string(h->calls) + " times");
+        else if (h->last != cr.err) viol("handler-got-another-error", what + " but " + h->tag + " received " + std::to_string(unsigned(h->last)));
+        if (h->do_throw) { g_by_api["route.probe.throwing-receiver"]++; if (h->calls && !cr.threw) viol("exception-swallowed", what + ": " + h->tag + " threw but the call returned normally"); }
+      }
+      else if (h->calls) viol("wrong-handler-called", what + " and called " + h->tag + " - the model says " + (want ? want->tag : "no handler is attached"));
+    }
+    if (!want) g_by_api["route.probe.nobody-listens"]++;
+    check_getters(("failing " + entry).c_str());
+    if constexpr (K::kind == K_ASM) { if (attached >= 0 && e.offset() != off0) viol("residue-bytes", what + " but the offset moved"); }
+    else { size_t n1 = 0; for (BaseNode* n = e.first_node(); n; n = n->next()) n1++; if (n1 != nodes0) viol("residue-nodes", what + " but the node count changed"); }
+    clear_calls();
+  }
+
+  // Builder / Compiler, end of the scenario: a node whose error only shows in finalize() (embed_label of a label id that does not
+  // exist is recorded; the serializing Assembler refuses it) - finalize() is a call of THIS emitter, the same routing applies
+  void finalize_probe() {
+    if constexpr (K::kind != K_ASM) {
+      if (attached < 0) return;
+      clear_calls();
+      if constexpr (K::kind == K_COMPILER) e.end_func();
+      Label ghost(uint32_t(holder[attached]->label_count() + 9));
+      CallResult rec = guarded([&] { return e.embed_label(ghost, 4); });
+      if (rec.err != Error::kOk) { clear_calls(); return; }          // refused at once: judged by the label-argument probes
+      clear_calls();
+      CallResult cr = guarded([&] { return e.finalize(); });
+      g_probes++; lbl::g_calls++;
+      g_by_api["route.finalize-probe." + state()]++;
+      g_distinct.insert("route:" + std::string(K::name()) + ":" + state() + ":finalize:err" + std::to_string(unsigned(cr.err)));
+      RH* want = receiver();
+      std::string what = std::string("finalize() of an emitter holding embed_label(Label id that does not exist)") + (cr.threw ? " threw error " : " returned error ") + std::to_string(unsigned(cr.err));
+      if (cr.err == Error::kOk && !cr.threw) { viol("finalize-never-refused", "finalize() returned kOk although a recorded embed_label names a label that does not exist"); clear_calls(); return; }
+      RH* all[4] = { &hh[0], &hh[1], &own[0], &own[1] };
+      for (RH* h : all) {
+        if (h == want) {
+          if (h->calls == 0) viol("finalize-handler-not-called", what + " but " + h->tag + " (the one in charge) was not called");
+          else if (h->calls != 1) viol("finalize-handler-called-more-than-once", what + " and called " + h->tag + " " + std::to_string(h->calls) + " times");
+          if (h->do_throw && h->calls && !cr.threw) viol("finalize-exception-swallowed", what + ": " + h->tag + " threw but finalize() returned normally");
+        }
+        else if (h->calls) viol("finalize-wrong-handler-called", what + " and called " + h->tag + " - the model says " + (want ? want->tag : "no handler is attached"));
+      }
+      check_getters("a failing finalize()");
+      clear_calls();
+    }
+  }
+
+  void valid_call() {
+    if (attached < 0) return;
+    clear_calls();
+    Error err;
+    if constexpr (K::a64) err = e.emit(a64::Inst::kIdAdd, a64::x(0), a64::x(1), a64::x(2));
+    else err = e.emit(x86::Inst::kIdMov, x86::eax, x86::ebx);
+    g_by_api["route.valid-calls"]++;
+    if (err != Error::kOk || hh[0].calls || hh[1].calls || own[0].calls || own[1].calls) viol("valid-call-refused", "a valid instruction returned " + std::to_string(unsigned(err)) + " / called a handler");
+    clear_calls();
+  }
+};
+
+template<typename E>
+static void run_scenario(Arch arch, uint64_t seed, size_t steps) {
+  g_scen++;
+  Scenario<E> s(arch, seed);
+  s.check_getters("construction");
+  for (size_t i = 0; i < steps && !s.dead; i++) {
+    s.event();
+    if (s.dead) break;
+    s.probe();
+    if (s.r.below(3) == 0) s.valid_call();
+    if (s.r.below(4) == 0) s.probe();
+  }
+  if (!s.dead) {
+    if (s.attached < 0) { s.event(); }       // (one more chance to end attached)
+    if (!s.dead) s.finalize_probe();
+  }
+}
+
+template<typename A, typename B, typename C>
+static void run_all(Arch arch, uint64_t seed, size_t scenarios, size_t steps) {
+  for (size_t i = 0; i < scenarios; i++) {
+    uint64_t s = seed * 7000003ull + i;
+    switch (i % 3) {
+      case 0: run_scenario<A>(arch, s, steps); break;
+      case 1: run_scenario<B>(arch, s, steps); break;
+      default: run_scenario<C>(arch, s, steps); break;
+    }
+  }
+  g_by_api["route.scenarios"] = g_scen;
+  g_by_api["route.events"] = g_events;
+  g_by_api["route.probes"] = g_probes;
+}
+
+} // namespace route
+
 int main(int argc, char** argv) {
   Args args(argc, argv);
   std::string arch = args.str("arch", "x64");
@@ -857,12 +1240,20 @@ int main(int argc, char** argv) {
   size_t lscen = args.u64("label-scenarios", 0);
   size_t lsteps = args.u64("label-steps", 80);
   if (nops) {
-    if (arch == "a64") run<a64::Assembler>(Arch::kAArch64, seed, nops);
-    else run<x86::Assembler>(arch == "x64" ? Arch::kX64 : Arch::kX86, seed, nops);
+    bool do_throw = args.u64("script-throw", seed & 1) != 0, own = args.u64("script-own", (seed >> 1) & 1) != 0;
+    if (arch == "a64") run<a64::Assembler>(Arch::kAArch64, seed, nops, do_throw, own);
+    else run<x86::Assembler>(arch == "x64" ? Arch::kX64 : Arch::kX86, seed, nops, do_throw, own);
   }
   if (lscen) {
     if (arch == "a64") lbl::run_all<a64::Assembler, a64::Builder, a64::Compiler>(Arch::kAArch64, seed, lscen, lsteps);
     else lbl::run_all<x86::Assembler, x86::Builder, x86::Compiler>(arch == "x64" ? Arch::kX64 : Arch::kX86, seed, lscen, lsteps);
+  }
+  size_t rscen = args.u64("route-scenarios", 0);
+  if (rscen) {
+    size_t rsteps = args.u64("route-steps", 60);
+    route::g_danger = args.u64("route-danger", 0) != 0;
+    if (arch == "a64") route::run_all<a64::Assembler, a64::Builder, a64::Compiler>(Arch::kAArch64, seed, rscen, rsteps);
+    else route::run_all<x86::Assembler, x86::Builder, x86::Compiler>(arch == "x64" ? Arch::kX64 : Arch::kX86, seed, rscen, rsteps);
   }
   printf("{\"ops\":%llu,\"violations\":[", (unsigned long long)(g_by_api["ops_total"] + lbl::g_calls));
   for (size_t i = 0; i < g_viol.size(); i++) printf("%s{\"key\":%s,\"what\":%s}", i ? "," : "", jstr(g_viol[i].key).c_str(), jstr(g_viol[i].what).c_str());
